@@ -69,6 +69,20 @@ def build_events():
         ('d10:heterogeneous array', het, het2),
         ('d11:S45 cell metadata', S['S45'], d1(S['S45'], 'cellmeta@2:tags+extra')),
     ]
+    # alignment that only the outputs can decide: one base cell, two look-alike candidates (no ids), the first with different outputs
+    src = ''.join('value_%d = compute(%d)\n' % (k, k) for k in range(10))
+    base_amb = U.notebook([U.code_cell(src, outputs=[U.stream('result 42\n' * 3)], ec=1)], 4, {})
+    def rewrite(text, word, ks):
+        for k in ks:
+            text = text.replace('value_%d = compute(%d)' % (k, k), 'v%d = %s(%d) + 1' % (k, word, k))
+        return text
+    # similar enough for the approximate level (> 0.7) but not for the strict one (< 0.95): the moderate level, which looks at outputs, decides
+    cand_same = U.code_cell(rewrite(src, 'evaluate', (1, 3, 5, 7)), outputs=[U.stream('result 42\n' * 3)], ec=1)
+    cand_other = U.code_cell(rewrite(src, 'estimate', (0, 2, 6, 8)), outputs=[U.error()], ec=2)
+    amb1 = U.notebook([cand_other, cand_same], 4, {})
+    amb2 = U.notebook([cand_same, cand_other], 4, {})
+    diffs.append(('d12:alignment decided by outputs (look-alike first)', base_amb, amb1))
+    diffs.append(('d13:alignment decided by outputs (look-alike last)', base_amb, amb2))
     merges = [
         ('m0:S45 same-line conflict', S['S45'], d1(S['S45'], 'src@0:repl1:a'), d1(S['S45'], 'src@0:repl1:b'), ['inline', None, None, True]),
         ('m1:S45 outputs conflict', S['S45'], d1(S['S45'], 'out@0:append:Ostream'), d1(S['S45'], 'out@0:append:Oerr'), ['inline', None, None, True]),
